@@ -63,6 +63,17 @@ def _dd_bundles(tier, seed, find, props, comps, widths_small, extra_fams=True, d
                 if more:
                     b.update(more)
                 out.append(P(**b))
+    # deeper directed structures: a merge whose result equals a kept exact state (recycled node) with further layers below
+    deep = dict(n=4, b=3, d=2, setnext=1, nsym=7)
+    deep_seeds = find([], deep, 8 if tier == "quick" else 32, base + 1, dyn=dict(notes="merge_equals_other_layer_state,cutset_nonempty", dd="frontier", width=2, tries=24))
+    for s in deep_seeds:
+        for dd in dds:
+            for comp in comps:
+                i += 1
+                b = dict(kind="dd", dd=dd, comp=comp, seed=s, width="2", roots="0", rub=("hslack" if i % 4 == 0 else "none"), lb=("sym" if i % 2 else "none"), hist=0, rev=i % 2, props=props, **deep, **lim)
+                if more:
+                    b.update(more)
+                out.append(P(**b))
     if extra_fams:
         fams = [
             dict(n=4, b=2, d=2, setnext=1),
@@ -124,6 +135,13 @@ def _solve_bundles(tier, seed, find, props, modes, fams=None, dds=DD3, caches=("
         ]
     out = []
     i = 0
+    if "plain" in modes or "cutoff" in modes:
+        deep = dict(n=4, b=3, d=2, setnext=1, nsym=6)
+        for s in find([], deep, 4 if tier == "quick" else 16, base + 1, dyn=dict(notes="merge_equals_other_layer_state,cutset_nonempty", dd="frontier", width=2, tries=24)):
+            for dd in dds:
+                i += 1
+                for ca in caches:
+                    out.append(P(kind="solve", dd=dd, cache=ca, fringe=fringes[i % len(fringes)], width="2", mode=modes[0], seed=s, rub="none", rev=i % 2, sym_init=0, warm=0, kmax=kmax, props=props, **deep, **lim))
     for fi, fam in enumerate(fams):
         seeds = [base + 100 * fi + k + 1 for k in range(nq)]
         for feat in directed:
@@ -253,6 +271,61 @@ def plan(prop, tier, seed, find):
         return dict(engine="sched", bundles=_par_bundles(tier, seed, "C04", ["plain", "cutoff"], variants=variants, nseeds=(1 if tier == "quick" else 5)), prefixes=["C04:", "nontermination"], vacuity=dict(context_switch=1, condvar_wait=1, interrupted=1), functions=FUNCS_PAR,
                     bounds=bound_par + "; thread count at construction 1..3 and after with_nb_threads 1..3 (including counts larger and smaller than at construction); cut-off poll K symbolic in 1..16",
                     nontrivial=("decided sub-case with at least one condvar wait on some path", lambda r: r["notes"].get("condvar_wait", 0) > 0))
+    if prop == "C15":
+        lim = _limits(tier)
+        base = seed * 1000
+        fam = dict(n=3, b=3, d=2, setnext=1, long_arcs=1, depth_free=1, nsym=5)
+        fam4 = dict(n=4, b=2, d=2, setnext=1, long_arcs=1, depth_free=1, nsym=5)
+        nq = 4 if tier == "quick" else 16
+        seeds = [(s, fam) for s in find(["lingering_root_child"], {k: v for k, v in fam.items() if k != "nsym"}, nq, base + 1)]
+        seeds += [(s, fam4) for s in find(["arc_spanning_2"], {k: v for k, v in fam4.items() if k != "nsym"}, nq, base + 1)]
+        seeds += [(base + 900 + k, fam) for k in range(nq // 2)]
+        b = []
+        i = 0
+        for s, f in seeds:
+            for dd in ("pooled", "lel"):
+                for ca in ("0", "1"):
+                    i += 1
+                    b.append(P(kind="solve", dd=dd, cache=ca, fringe=("nodup" if i % 3 == 0 else "simple"), width="1,2,3", mode="plain", seed=s, rub="none", rev=i % 2, perm=(i // 2) % 2, props="C15,C02", **f, **lim))
+        return dict(engine="symx", bundles=b, prefixes=["C15:", "C02:solution", "nontermination"], vacuity=dict(explored_ge2=1), functions=FUNCS_SOLVE + ["ddo::Pooled::_move_to_next_layer (is_impacted_by / long arcs)"],
+                    bounds=bound_solve + "; depth-free table models with irrelevance masks (a state not impacted by a variable keeps its state at cost 0 under a neutral default decision), static and permuted variable orders, widths 1..3; Pooled compared with the optimum and (same obligations) with Mdd<LEL> in which every state is expanded on every variable; termination through a budget of 20000 model callbacks",
+                    nontrivial=("decided sub-case in which the solver processed >= 2 sub-problems on some path", lambda r: r["notes"].get("explored_ge2", 0) > 0))
+    if prop == "C11":
+        lim = _limits(tier)
+        base = seed * 1000
+        nb = 8 if tier == "quick" else 40
+        b = []
+        for k in range(nb):
+            for fr in ("nodup", "simple"):
+                b.append(P(kind="fringe", fringe=fr, len=(6 if tier == "quick" else 8), states=2, depths=2, seed=base + 1 + 5 * k, count=5, **lim))
+        # solver level: models whose state does not embed the depth, duplicate-free fringe
+        fams = [dict(n=3, b=2, d=2, setnext=1, nsym=5, depth_free=1), dict(n=4, b=2, d=2, setnext=0, nsym=5, depth_free=1)]
+        b += _solve_bundles(tier, seed, find, "C11", ["plain"], fams=fams, fringes=("nodup",), nseeds=(2 if tier == "quick" else 8))
+        return dict(engine="symx", bundles=b, prefixes=["C11:", "nontermination"], vacuity=dict(coalesced=1, same_state_other_depth=1, pop_some=1), functions=["ddo::NoDupFringe<MaxUB<_>>::{push, pop, clear, len, is_empty} (incl. bubble_up / bubble_down / recycle bin)", "ddo::SimpleFringe<MaxUB<_>>::{push, pop, clear, len}", "ddo::MaxUB::compare, ddo::CompareSubProblem"] + FUNCS_SOLVE,
+                    bounds="operation sequences of length %d (seeded, >= 2 pushes and >= 1 pop, then drained) over 2 states x 2 depths, value and upper bound of every push symbolic in +-1000, checked against a reference multiset / (state, depth)-keyed map; solver level: depth-free table models with NoDupFringe" % (6 if tier == "quick" else 8),
+                    nontrivial=("decided sequence in which a push was coalesced or a pop returned an element", lambda r: r["notes"].get("pop_some", 0) > 0 or r["notes"].get("explored_ge2", 0) > 0), kani=["C11"])
+    if prop == "C18":
+        lim = _limits(tier)
+        base = seed * 1000
+        nb = 12 if tier == "quick" else 60
+        b = [P(kind="cache", len=(5 if tier == "quick" else 7), seed=base + 1 + 5 * k, count=5, **lim) for k in range(nb)]
+        for th, ops, pre in ([(2, 1, 2), (2, 2, 2), (3, 1, 2)] if tier == "quick" else [(2, 1, 3), (2, 2, 3), (3, 1, 3), (3, 2, 2), (4, 1, 2)]):
+            b.append(P(kind="cacheconc", threads=th, ops=ops, preempt=pre, seed=base + 7, count=(2 if tier == "quick" else 6), _engine="sched", **lim))
+        for th, uv in [(2, 0), (2, 1), (3, 1)]:
+            b.append(P(kind="domconc", threads=th, preempt=2, use_value=uv, seed=base + 9, count=1, _engine="sched", **lim))
+        return dict(engine="symx+sched", bundles=b, prefixes=["C18:"], vacuity=dict(get_over_two_updates=1, clear_layer=1, preemption=1), functions=["ddo::SimpleCache::{initialize, get_threshold, update_threshold, clear_layer, clear}", "ddo::SimpleDominanceChecker::is_dominated_or_insert (concurrent phase)", "dashmap facade: every get / entry / insert / clear call of a worker is a scheduling choice"],
+                    bounds="sequential: operation sequences of length 5 (+4 final reads) over 2 states x 2 depths, threshold values symbolic in +-1000, explored flag symbolic; concurrent: 2-3 threads x 1-2 (update, read) pairs on one key with symbolic values, every interleaving at call granularity within the pre-emption bound; dominance: 2-3 concurrent insertions with symbolic coordinates then 2 symbolic probes",
+                    nontrivial=("decided case with a read over >= 2 updates, or a pre-empted concurrent phase", lambda r: r["notes"].get("get_over_two_updates", 0) > 0 or r["notes"].get("preemption", 0) > 0), kani=["C18"])
+    if prop == "C10":
+        lim = _limits(tier)
+        base = seed * 1000
+        b = []
+        for k in range(6 if tier == "quick" else 24):
+            for uv in (0, 1):
+                b.append(P(kind="dominance", len=(3 if tier == "quick" else 4), use_value=uv, seed=base + 1 + k, count=1, **lim))
+        return dict(engine="symx", bundles=b, prefixes=["C10:"], vacuity=dict(dominated=1), functions=["ddo::SimpleDominanceChecker::{new, is_dominated_or_insert, cmp}", "ddo::Dominance::{partial_cmp, cmp} (Kani, [isize;3])"],
+                    bounds="sequences of 3 (thorough 4) queries + 2 probes, key pattern seeded (same / different / no key), 2 coordinates and the value of every query symbolic in +-100, with and without value; reference keeps every recorded state",
+                    nontrivial=("decided sequence in which at least one query was reported dominated", lambda r: r["notes"].get("dominated", 0) > 0), kani=["C10"])
     if prop == "C17":
         return dict(engine="kani", bundles=[], prefixes=[], vacuity={}, functions=[], bounds="none: Solver::gap is loop-free; all 2^128 pairs (lb, ub) with lb <= ub, IEEE-754 f32 semantics, decided by CBMC",
                     nontrivial=("n/a", lambda r: False), kani=["C17"])
